@@ -7,10 +7,74 @@ Open Scope N_scope.
 (* ---- projections through the state updaters ---- *)
 Ltac sproj :=
   cbn [s_store s_slfu s_tlfu s_ring s_pqueue s_buf s_clear_sigs s_done s_next_id s_ticks s_stop_msgs
-       s_pol_stop_msgs s_now s_mets s_hist_min s_closed s_pol_closed s_pc s_wpc s_clients
+       s_pol_stop_msgs s_now s_mets s_hist s_start s_closed s_pol_closed s_pc s_wpc s_clients
        upd_store upd_slfu upd_tlfu upd_ring upd_pqueue upd_buf upd_clear_sigs upd_done upd_next_id
-       upd_ticks upd_stop_msgs upd_pol_stop_msgs upd_now upd_mets upd_hist_min upd_closed
+       upd_ticks upd_stop_msgs upd_pol_stop_msgs upd_now upd_mets upd_hist upd_start upd_closed
        upd_pol_closed upd_pc upd_wpc upd_clients set_client fresh_id fst snd] in *.
+
+(* prepare_evict / track_admission write the life-expectancy histogram and start_ts only *)
+Lemma prepare_evict_shape c st k st1 : prepare_evict c st k = Some st1 ->
+  exists h s, st1 = upd_start (upd_hist st h) s.
+Proof.
+  unfold prepare_evict. destruct (c_metrics c); [|intros H; inversion H; subst; exists (s_hist st1), (s_start st1); destruct st1; reflexivity].
+  destruct (aget k (s_start st)) as [ts|]; [|intros H; inversion H; subst; exists (s_hist st1), (s_start st1); destruct st1; reflexivity].
+  destruct (s_now st <? ts); [discriminate|]. intros H; inversion H; subst. eauto.
+Qed.
+
+Lemma prepare_evicts_shape c cbs : forall st st1, prepare_evicts c st cbs = Some st1 ->
+  exists h s, st1 = upd_start (upd_hist st h) s.
+Proof.
+  induction cbs as [|cb cbs IH]; intros st st1; cbn [prepare_evicts].
+  - intros H; inversion H; subst. exists (s_hist st1), (s_start st1). destruct st1; reflexivity.
+  - destruct cb; try (apply IH).
+    destruct (prepare_evict c st k) as [st0|] eqn:E; [|discriminate]. intros H.
+    destruct (prepare_evict_shape _ _ _ _ E) as (h0 & s0 & ->). destruct (IH _ _ H) as (h1 & s1 & ->).
+    exists h1, s1. reflexivity.
+Qed.
+
+Lemma track_admission_shape c st k st1 : track_admission c st k = Some st1 -> exists s, st1 = upd_start st s.
+Proof.
+  unfold track_admission. destruct (c_metrics c); [|intros H; inversion H; subst; exists (s_start st1); destruct st1; reflexivity].
+  destruct (_ <? _); [discriminate|]. intros H; inversion H; subst. eauto.
+Qed.
+
+Ltac open_track H :=
+  match type of H with context [track_admission ?c ?s ?k] =>
+    let TA := fresh "TA" in
+    destruct (track_admission c s k) eqn:TA;
+      [ let s0 := fresh "s0" in destruct (track_admission_shape _ _ _ _ TA) as (s0 & ->); clear TA | discriminate H ]
+  end.
+Ltac open_prep H :=
+  match type of H with context [prepare_evicts ?c ?s ?l] =>
+    let PE := fresh "PE" in
+    destruct (prepare_evicts c s l) eqn:PE;
+      [ let h0 := fresh "h0" in let s0 := fresh "s0" in
+        destruct (prepare_evicts_shape _ _ _ _ PE) as (h0 & s0 & ->); clear PE | discriminate H ]
+  end.
+
+(* ---- a generic case analysis of one step: unfold the step functions, destruct every scrutinee
+   (innermost first) until the step's result is exposed ---- *)
+Ltac crush_loop H :=
+  first
+   [ discriminate H
+   | match type of H with
+     | StepOk _ _ = StepOk _ _ => inversion H; subst; clear H
+     | context [match ?x with _ => _ end] =>
+         lazymatch x with context [match _ with _ => _ end] => fail | _ => idtac end;
+         destruct x eqn:?; crush_loop H
+     end ].
+Ltac crush_step H :=
+  unfold cstep, start_op, continue_client, proc_step, worker_step, proc_handle_item, buf_send, drain_buffer, tick_next, next_victim in H;
+  sproj; crush_loop H.
+Ltac open_shapes :=
+  repeat match goal with
+  | PE : prepare_evicts _ _ _ = Some ?x |- _ =>
+      is_var x; let h0 := fresh "h0" in let s0 := fresh "s0" in
+      destruct (prepare_evicts_shape _ _ _ _ PE) as (h0 & s0 & ->); clear PE
+  | TA : track_admission _ _ _ = Some ?x |- _ =>
+      is_var x; let s0 := fresh "s0" in destruct (track_admission_shape _ _ _ _ TA) as (s0 & ->); clear TA
+  end.
+Ltac unemit := unfold emit; try match goal with |- context [c_metrics ?c] => destruct (c_metrics c) end; sproj.
 
 Lemma emit_frame c st evs :
   s_store (emit c st evs) = s_store st /\ s_slfu (emit c st evs) = s_slfu st /\
@@ -133,10 +197,12 @@ Proof.
   repeat split; reflexivity.
 Qed.
 
-Lemma tick_next_slfu st h rest acc st' o :
-  tick_next st h rest acc = StepOk st' o -> s_slfu st' = s_slfu st /\ s_store st' = s_store st.
+Lemma tick_next_slfu c st h rest acc st' o :
+  tick_next c st h rest acc = StepOk st' o -> s_slfu st' = s_slfu st /\ s_store st' = s_store st.
 Proof.
-  unfold tick_next. destruct rest; [intros H; inversion H; subst; sproj; auto|].
+  unfold tick_next. destruct rest.
+  { destruct (prepare_evicts c st acc) as [st1|] eqn:E; [|discriminate].
+    destruct (prepare_evicts_shape _ _ _ _ E) as (h0 & s0 & ->). intros H; inversion H; subst; sproj; auto. }
   destruct (h_tick_key h); [|discriminate]. destruct (aget _ _); [|discriminate].
   intros H; inversion H; subst; sproj; auto.
 Qed.
@@ -169,9 +235,13 @@ Proof.
         destruct (client_of st a0); try discriminate.
         destruct (drain_buffer _) as [st2 cbs] eqn:DB. inversion H; subst; sproj.
         apply drain_buffer_frame in DB. sproj. apply SRSame. tauto.
-  - destruct added; same_slfu H.
+  - destruct added; [|same_slfu H].
+    destruct (track_admission _ _ _) as [st2|] eqn:TA; [|discriminate].
+    destruct (track_admission_shape _ _ _ _ TA) as (s0 & ->). same_slfu H.
   - unfold next_victim in H. destruct victims; same_slfu H.
-  - destruct v as [vk vcost]. destruct (st_try_remove _ _ _) as [sto prev]. unfold next_victim in H.
+  - destruct v as [vk vcost]. destruct (st_try_remove _ _ _) as [sto prev].
+    destruct (prepare_evicts _ _ _) as [st0|] eqn:PE; [|discriminate].
+    destruct (prepare_evicts_shape _ _ _ _ PE) as (h0 & s0 & ->). unfold next_victim in H.
     destruct rest; same_slfu H.
   - destruct (st_try_remove _ _ _) as [sto prev]. same_slfu H.
   - inversion H; subst; sproj. apply SRClear. reflexivity.
